@@ -312,19 +312,26 @@ def check_primitive(case, ctx):
     h, w, bits = case
     rows = [[bool((bits >> (j * w + i)) & 1) for i in range(w)] for j in range(h)]
     arr = numpy.array(rows, dtype=bool)
+    # the same boolean array held row-major and column-major: a mask is its values, not its strides
+    layouts = (("C", arr), ("F", numpy.asfortranarray(arr)))
     for size in range(0, 4):
-        ctx.at("C07.blur_mask")
-        got = masking.blur_mask(arr.copy(), size=size)
         want = refmodel.chebyshev_dilate(rows, size)
-        ctx.check(got.shape == arr.shape and got.dtype == arr.dtype and got.tolist() == want,
-                  "C07.blur_mask",
-                  lambda: f"blur_mask(\n{_show(rows)}\n, size={size}) =\n{_show(got.tolist())}\nexpected\n{_show(want)}")
+        for layout, held in layouts:
+            ctx.at("C07.blur_mask")
+            got = masking.blur_mask(held.copy(order="K"), size=size)
+            ctx.check(got.shape == arr.shape and got.dtype == arr.dtype and got.tolist() == want,
+                      "C07.blur_mask",
+                      lambda: f"blur_mask(\n{_show(rows)}\n, size={size}) [{layout}-ordered input] =\n"
+                      f"{_show(got.tolist())}\nexpected\n{_show(want)}",
+                      layout=layout)
     left, back, node = refmodel.c_grid_masks(rows)
     for pad, want in (([False, True], left), ([True, False], back), ([True, True], node)):
-        ctx.at("C07.smear_mask")
-        got = masking.smear_mask(arr.copy(), pad)
-        ctx.check(got.tolist() == want, "C07.smear_mask",
-                  lambda: f"smear_mask(\n{_show(rows)}\n, {pad}) =\n{_show(got.tolist())}\nexpected\n{_show(want)}")
+        for layout, held in layouts:
+            ctx.at("C07.smear_mask")
+            got = masking.smear_mask(held.copy(order="K"), pad)
+            ctx.check(got.tolist() == want, "C07.smear_mask",
+                      lambda: f"smear_mask(\n{_show(rows)}\n, {pad}) [{layout}-ordered input] =\n"
+                      f"{_show(got.tolist())}\nexpected\n{_show(want)}")
     ctx.at("C07.c_mask_from_centres")
     dims = {ArakawaCGridKind.face: ("fj", "fi"), ArakawaCGridKind.left: ("lj", "li"),
             ArakawaCGridKind.back: ("bj", "bi"), ArakawaCGridKind.node: ("nj", "ni")}
